@@ -219,7 +219,7 @@ def run(tier, seed):
             tasks.append(("slice", (name, "pw", ch)))
         for ch in core.chunks(sub, 24):
             tasks.append(("slice", (name, "both", ch)))
-    tasks.sort(key=lambda t: -(T.get(t[1][0]).ref.esize * (3 if t[1][1] != "pw" else 1) * (1 if t[0] == "small" else 40)))
+    tasks.sort(key=lambda t: -(T.hint(t[1][0]).ref.esize * (3 if t[1][1] != "pw" else 1) * (1 if t[0] == "small" else 40)))
     core.pmerge(_dispatch, tasks, acc)
     _constants(acc)
     return acc
